@@ -134,7 +134,19 @@ for l in open("/verif/properties.jsonl"):
         kind = f"For this task, aim your change at: {KINDS4[pid]}.\n"
     if rnd == 5:
         kind = f"For this task, aim your change at: {KINDS5[pid]}.\n"
-    if rnd >= 13:
+    if rnd >= 14:
+        kind = ("For this task you choose the mechanism yourself. A verification tool has already been hardened against thirteen rounds of seeded changes "
+                "of the following kinds, so AVOID all of them: wrong constants / signs / operand order on generic inputs; special values and sign "
+                "patterns (exact zeros, ties, signed zeros, dyadic data); shape corners (1 x n, n x 1, extreme aspect ratios) and size thresholds / "
+                "blocked loops; memory layout, dtype and numpy-scalar handling; call forms (keyword / positional / explicit defaults / verbose / return "
+                "arities); caches, retained buffers, aliasing of arguments, state on solver objects, in-place modification; random-stream handling; "
+                "extreme magnitudes; scipy.sparse storage forms and empty component planes; option x input-class fast paths; cleanup thresholds and "
+                "other silent accuracy losses; tolerances ignored or hard-wired; algorithm substitutions valid only under commutativity / definiteness / "
+                "full rank / distinctness / normality; failure handling (swallowed exceptions, silent fallbacks, early returns, flags computed from stale "
+                "quantities); structured inputs such as Hermitian, hollow, nilpotent, reducible, badly scaled or graded matrices. Think about what a "
+                "checker that samples inputs (including all of the above classes) and compares with independent references would STILL be least "
+                "likely to notice for this particular property, and build your change there. Explain in meta.json why you expect it to be missed.\n")
+    elif rnd >= 13:
         kind = ("For this task, aim your change at FAILURE HANDLING and the boundary between 'answers' and 'refuses': the places where the code detects "
                 "that it cannot proceed (breakdowns, zero pivots, non-convergence, invalid or degenerate input, exceptions from a helper, fallbacks to another "
                 "method). Realistic slips: an exception that is now swallowed (try/except returning a default, a partial or a stale result instead of "
